@@ -184,6 +184,18 @@ def unit_products(kind, ypos=0):
             kit.prove_vec(c, "after_substitution_mv_is_J(new_point)_u", ju2, u.v.apply(JN + "@%s" % pt2))
             kit.prove_vec(c, "after_substitution_rmv_is_JT(new_point)_g", jtg2, g.v.apply(JN + "@%s^H" % evs[1]["pt"]))
             c.check("new_point_differs_from_construction_point", pt2 != pt0)
+        # substitution by new leaves that share the memory of the old tensors (p.detach().requires_grad_()): they are
+        # different tensors - products must be recomputed at them so that derivatives flow to the new leaves
+        y3, p3 = y.detach().requires_grad_(), p.detach().requires_grad_()
+        th3 = [t.detach().requires_grad_() for t in objt]
+        n3 = len(log)
+        with J.uselinopparams(*((y3, p3, *th3))):
+            with (st.enable_grad() if grad_mode else st.no_grad()):
+                ok3, _ = kit.call_or_fail(c, "after_substitution_by_releafed_tensors_products_run", lambda: (J.mv(u), J.rmv(g)))
+            evs3 = log[n3:]
+        if ok3:
+            c.check("function_reevaluated_at_new_leaves_that_share_memory_with_the_old_ones", len(evs3) == 2 and
+                    all(e["args"][0] is y3 and e["args"][2] is p3 for e in evs3), detail="%d evaluations" % len(evs3))
         lp3 = J.getlinopparams()
         c.check("linop_parameters_restored", lp3[0] is y and lp3[1] is p and all(a is b for a, b in zip(lp3[2:], objt)))
         n2 = len(log)
@@ -270,6 +282,32 @@ def unit_hess():
             hu_r = Hs.rmv(u)
         c.prove("mv(u)_is_(Jacobian_of_grad_f)_u", hu.v.eq(u.v.apply("J0@%s" % pt)))
         c.prove("rmv_uses_the_same_product(Hermitian)", hu_r.v.eq(hu.v))
+        # objective that is a method of an object holding a tensor: the Hessian operator depends on that tensor too
+        import xitorch
+        theta = st.vec("theta", (3,), (0,), requires_grad=True)
+
+        class EM(xitorch.EditableModule):
+            def __init__(self):
+                self.theta = theta
+
+            def z(self, y_, p_):
+                key = [("vec", y_.v), ("vec", p_.v), ("vec", self.theta.v)]
+                val = st.Tensor("sc", alg.Sc(z3.Real("zm<%s>" % alg._atom_str(alg.fn_apply("zm", key)))), (), y_.dtype)
+                th = self.theta
+
+                def vjp(g):
+                    gy, pt_ = absfun("grad_zm", [y_, p_, th], y_.shape[0])
+                    return [st.mul(gy, g), None, None]
+                return st._taped("zm", [y_, p_, th], val, vjp)
+
+            def getparamnames(self, methodname, prefix=""):
+                return [prefix + "theta"]
+        obj = EM()
+        with st.no_grad():
+            Hm = jh.hess(obj.z, params=(y, p), idxs=0)
+        lp = Hm.getlinopparams()
+        c.check("hessian_of_a_method_lists_the_objects_tensors_among_its_parameters", any(t is theta for t in lp),
+                detail="%d parameters, object tensor %s" % (len(lp), "present" if any(t is theta for t in lp) else "missing"))
         c.prove("canary", z3.BoolVal(False), kind="canary")
     return kit.run_unit("hess", run)
 
